@@ -106,3 +106,9 @@ package handshake
 //@ ensures result1 == nil ==> (h.state == peerIDAuthClientStateDone || h.state == peerIDAuthClientStateWaitingForBearer) &&
 //@         result0 == h.serverPeerID && result0 != ""
 //@ modifies nothing
+
+//@ func (h *PeerIDAuthHandshakeServer) ParseHeaderVal
+//@ prop C19
+//@ ensures h.Hostname == old(h.Hostname) && h.PrivKey == old(h.PrivKey) && h.TokenTTL == old(h.TokenTTL) && h.Hmac == old(h.Hmac) && h.ran == old(h.ran)
+//@ ensures h.opaque.PeerID == old(h.opaque.PeerID) && h.opaque.IsToken == old(h.opaque.IsToken)
+//@ noframe
